@@ -91,17 +91,42 @@ class FastSem(object):
 
 
 class KSched(rs.Sched):
-    '''controlled scheduler whose threads can be terminated'''
+    '''
+    The controlled scheduler of rpmc.sched with two additions: threads can be
+    terminated (fake processes), and the scheduling decision is taken by the
+    yielding thread itself -- the baton goes straight to the chosen thread
+    (none at all if the thread continues) instead of via the explorer thread.
+    Decisions, recorded choice points and step accounting are those of
+    `Sched.run` / `Sched._choose`, so `rs.explore` works unchanged.
+    '''
 
     def __init__(self, *a, **kw):
         rs.Sched.__init__(self, *a, **kw)
-        self.ctrl = FastSem()
+        self.ctrl  = FastSem()
+        self.error = None
 
     def spawn(self, name, target, poller=False):
+        # raw thread: threading.Thread.start() waits for a start handshake
+        # which costs more than a whole execution step sequence
         t = rs.CThread(self, name, target, poller)
         t.sem = FastSem()
-        t.thread.start()
+        t.fin = FastSem()
+
+        def body():
+            try:
+                t._run()
+            finally:
+                t.fin.release()
+        _thread.start_new_thread(body, ())
         return t
+
+    def shutdown(self):
+        self.aborting = True
+        for t in self.threads:
+            if t.state != rs.DONE:
+                t.sem.release()
+        for t in self.threads:
+            t.fin.lock.acquire(timeout=5)
 
     def yield_point(self, state=rs.READY, pred=None, step=True):
         me = self.me()
@@ -116,10 +141,64 @@ class KSched(rs.Sched):
                 me.unwinding = True
                 raise Killed()
             return                       # unwinding is one atomic step
-        rs.Sched.yield_point(self, state, pred, step)
+        if step:
+            self.bump(me)
+        me.state = state
+        me.pred  = pred
+        self._handoff(me)
+        me.state = rs.READY
         if getattr(me, 'killed', False) and not me.unwinding:
             me.unwinding = True
             raise Killed()
+
+    def _handoff(self, me):
+        pick = None
+        if self.error is None and self.n_steps < self.max_steps:
+            enabled = [t for t in self.threads if t.enabled()]
+            if enabled:
+                try:
+                    pick = enabled[0] if len(enabled) == 1 \
+                           else self._choose(enabled)
+                except rs.Divergence as e:
+                    self.error = e
+                    pick = None
+                else:
+                    self.running = pick
+                    self.n_steps += 1
+                    pick.steps   += 1
+        if pick is me:
+            return
+        if pick is None:
+            self.ctrl.release()          # quiescence, limits, errors
+        else:
+            pick.sem.release()
+        me.sem.acquire()
+        if self.aborting:
+            raise rs.Abort()
+
+    def run(self):
+        try:
+            while True:
+                if self.error is not None:
+                    raise self.error
+                enabled = [t for t in self.threads if t.enabled()]
+                if not enabled:
+                    if self.on_quiescent and self.on_quiescent(self):
+                        continue
+                    live = [t for t in self.threads
+                            if t.state != rs.DONE and not t.daemon]
+                    return 'deadlock' if live else 'done'
+                pick = enabled[0] if len(enabled) == 1 \
+                       else self._choose(enabled)
+                self.running = pick
+                self.n_steps += 1
+                pick.steps   += 1
+                if self.n_steps > self.max_steps:
+                    return 'steps'
+                pick.sem.release()
+                self.ctrl.acquire()
+        finally:
+            self.shutdown()
 
     def kill(self, t):
         t.killed    = True
@@ -820,6 +899,22 @@ def scenarios(quick):
 
 _scns = None
 _sbox = None
+_slot = None
+
+
+def _pin():
+    '''
+    one CPU per pool worker: the baton hand-over between the threads of an
+    execution is twice as fast when they share a CPU
+    '''
+    try:
+        cpus = sorted(os.sched_getaffinity(0))
+        with _slot.get_lock():
+            idx = _slot.value
+            _slot.value += 1
+        os.sched_setaffinity(0, {cpus[idx % len(cpus)]})
+    except Exception:
+        pass
 
 
 def run_one(scn, prefix):
@@ -857,7 +952,8 @@ def _job(i):
         part.violation('HARNESS#divergence|%s' % scn['name'], repr(e), None)
     part.cover(evaluations=n, states=steps, transitions=steps,
                traces_validated_against_impl=n, allotment_scenarios=1,
-               allotment_executions=n)
+               allotment_executions=n,
+               **{'allotment_executions_%s' % scn['family']: n})
     if i in (0, len(_scns) // 2):
         part.sample({'part': 'a', 'scenario': scn['name'], 'schedules': n,
                      'deviation_bound': scn['bound']})
@@ -865,7 +961,9 @@ def _job(i):
 
 
 def run(ctx):
-    global _scns
+    global _scns, _slot
+    import multiprocessing
+    _slot = multiprocessing.get_context('fork').Value('i', 0)
     _scns = scenarios(ctx.quick)
     cap   = 4000 if ctx.quick else 40000
     for s in _scns:
@@ -874,7 +972,7 @@ def run(ctx):
     # largest scenarios first
     order = sorted(range(len(_scns)),
                    key=lambda i: (-len(_scns[i]['reqs']), -_scns[i]['bound']))
-    for res in seams.pmap(_job, order, ctx.workers):
+    for res in seams.pmap(_job, order, ctx.workers, init=_pin):
         keep = list()
         for key, detail, rep in res['violations']:
             if key.startswith('HARNESS#'):
